@@ -303,6 +303,13 @@ def _base(sing=False):
     return s
 
 
+def _other_axis(labels):
+    ax = Axis(np.array(labels), "x")
+    ax.attrs["units"] = "km"
+    ax.attrs["positive"] = None
+    return ax
+
+
 KEEP_OPS = {   # name -> (callable on a, axes whose attrs must survive or None)
     "idx_scalar": (lambda a: a[10], ["y"]), "idx_list": (lambda a: a[[10, 20]], ["x", "y"]), "idx_mask": (lambda a: a[np.array([True, False, True])], ["x", "y"]),
     "idx_slice": (lambda a: a[30:10], ["x", "y"]), "idx_pos": (lambda a: a.ix[0:2], ["x", "y"]), "idx_take": (lambda a: a.take({"y": ["a"]}), ["x", "y"]),
@@ -316,6 +323,11 @@ KEEP_OPS = {   # name -> (callable on a, axes whose attrs must survive or None)
     "reshape": (lambda a: a.reshape("y", "x", "k"), None), "reshape_group": (lambda a: a.reshape("y,x"), None),
     "broadcast": (lambda a: a.broadcast([Axis(np.array([1, 2]), "k")] + list(a.axes)), None),
     "reindex": (lambda a: a.reindex_axis([10, 15, 30], axis="x"), ["x", "y"]), "reindex_y": (lambda a: a.reindex_axis(["a", "z"], axis="y"), ["x", "y"]),
+    # the target given as an Axis object that carries OTHER metadata (also what align() passes): the array's own axis metadata survives
+    "reindex_axisobj": (lambda a: a.reindex_axis(_other_axis([10, 15, 30])), ["x", "y"]),
+    "reindex_axisobj_present": (lambda a: a.reindex_axis(_other_axis([20, 10])), ["x", "y"]),
+    "align_second": (lambda a: common.da.align([DimArray(np.zeros(2), axes=[_other_axis([20, 40])]), a])[1], ["x", "y"]),
+    "align_first": (lambda a: common.da.align([a, DimArray(np.zeros(2), axes=[_other_axis([20, 40])])], join="inner")[0], ["x", "y"]),
     "reindex_like": (lambda a: a.reindex_like(DimArray(np.zeros(2), axes=[Axis(np.array([20, 40]), "x")])), ["y"]),
     "sort": (lambda a: a.sort_axis(axis="x"), ["y"]), "sort_y": (lambda a: a.sort_axis(axis=1), ["x"]),
     "interp": (lambda a: a.interp_axis([10, 15, 40], axis="x"), ["y"]), "interp_like": (lambda a: a.interp_like(DimArray(np.zeros(2), axes=[Axis(np.array([12.5, 20.]), "x")])), ["y"]),
